@@ -395,17 +395,18 @@ def views (ps : List (Param V)) (q : List String) (g : List V) : PSet.Views V :=
     floatDict := fln.zip g }
 
 /-- The table cell of local name `a` for a model whose alias row is `row`: walk the parameters in
-declaration order (`j` = global index, `g` = the not yet consumed floating values); the parameter
-mapped under alias `a` gives its value — the next supplied value and `j+1` when floating, its
-own (fixed) value and `-(j+1)` when fixed; `none` = not applicable. -/
-def cell (a : String) : List (Param V) → List (Option String) → Nat → List V → Option (V × Int)
-  | p :: ps, r :: row, j, g =>
+declaration order (`j` = global index, `k` = number of floating parameters passed so far = the index
+of the next fit parameter, `g` = the not yet consumed floating values); the parameter mapped under
+alias `a` gives its value — the next supplied value and `k+1` (fit-parameter index + 1) when it is
+floating, its own (fixed) value and `-(j+1)` (global index) when it is fixed; `none` = not applicable. -/
+def cell (a : String) : List (Param V) → List (Option String) → Nat → Nat → List V → Option (V × Int)
+  | p :: ps, r :: row, j, k, g =>
     if p.isfixed then
-      if r = some a then some (p.value, -((j : Int) + 1)) else cell a ps row (j + 1) g
+      if r = some a then some (p.value, -((j : Int) + 1)) else cell a ps row (j + 1) k g
     else match g with
-      | v :: g' => if r = some a then some (v, (j : Int) + 1) else cell a ps row (j + 1) g'
+      | v :: g' => if r = some a then some (v, (k : Int) + 1) else cell a ps row (j + 1) (k + 1) g'
       | [] => none
-  | _, _, _, _ => none
+  | _, _, _, _, _ => none
 
 end Spec
 
@@ -507,23 +508,31 @@ def zip3 {α β γ : Type} : List α → List β → List γ → List (α × β 
   | a :: as, b :: bs, c :: cs => (a, b, c) :: zip3 as bs cs
   | _, _, _ => []
 
+/-- `np.cumsum(mask) - 1` (`acc` = the sum so far) -/
+def cumsumM1 : List Bool → Int → List Int
+  | [], _ => []
+  | b :: bs, acc => (acc + (if b then 1 else 0) - 1) :: cumsumM1 bs (acc + (if b then 1 else 0))
+
 /-- The common part of `create_model_params_dict` and of the loop body of
-`create_src_params_recarray` for one alias row: local names, values and signed global index + 1,
-floating parameters first, then the fixed ones — all through boolean masks, as coded. -/
+`create_src_params_recarray` for one alias row: local names, values and the `gpidx` entry, floating
+parameters first, then the fixed ones — all through boolean masks, as coded. Floating parameters are
+referenced by `gflpidxs + 1` (`gflpidxs = np.cumsum(gflp_mask) - 1`, the fit-parameter index), fixed
+ones by `-gpidxs - 1` (`gpidxs = np.arange(n_global_params)`). -/
 def rowEntries (gps : PSet V) (row : List (Option String)) (g : List V) :
     Except Err (List (String × V × Int)) :=
   let m := row.map (·.isSome)
   let fl := gps.floatMask
   let fx := gps.fixedMask
-  let idx := List.range gps.params.length
+  let gpidxs : List Int := (List.range gps.params.length).map (fun (i : Nat) => (i : Int))
+  let gflpidxs : List Int := cumsumM1 fl 0
   match maskSel row (andM fl m), maskSel row (andM fx m),
         maskSel m fl, maskSel m fx,
-        maskSel idx (andM fl m), maskSel idx (andM fx m) with
+        maskSel gflpidxs (andM fl m), maskSel gpidxs (andM fx m) with
   | .ok nFl, .ok nFx, .ok mFl, .ok mFx, .ok iFl, .ok iFx =>
     match maskSel g mFl, maskSel gps.fixedVals mFx with
     | .ok vFl, .ok vFx =>
       .ok (zip3 ((nFl ++ nFx).filterMap id) (vFl ++ vFx)
-            (iFl.map (fun (i : Nat) => (i : Int) + 1) ++ iFx.map (fun (i : Nat) => -(i : Int) - 1)))
+            (iFl.map (fun (i : Int) => i + 1) ++ iFx.map (fun (i : Int) => -i - 1)))
     | _, _ => .error .indexError
   | _, _, _, _, _, _ => .error .indexError
 
